@@ -1,5 +1,5 @@
 (* C09 — filling variables is pure substitution and composes. *)
-From Secs Require Import Ast FloatProofs Fill Msg Api WireSpec WireLemmas WireValues WireEnc WireDec MsgProofs AstProofs FillProofs.
+From Secs Require Import Ast FloatProofs Fill Msg Api WireSpec WireLemmas WireValues WireEnc WireDec MsgProofs AstProofs FillProofs FillCompose.
 Open Scope Z_scope.
 
 (* value items: FillVariables gives what the factory gives on the argument
@@ -36,8 +36,16 @@ Theorem C09_bytes : forall m s m', fill_msg m s = Some m' ->
 Proof. intros m s m' H. destruct (fill_msg_frame m s m' H) as (A & B' & _). split; assumption. Qed.
 Print Assumptions C09_bytes.
 
-(* C09_compose_partial: the composition law (several fills = one fill with the
-   union) and the order of the remaining variables are, for list templates,
-   decided by the Go-side composition monitor of suite C09 and by the
-   correspondence with the model; for value items they follow from C09_subst
-   (both sides reduce to the factory on the same argument list). *)
+(* composition, value items: filling in two steps equals filling once with
+   the union of the maps (the first map taking precedence, as the variables it
+   fills are gone for the second), for values that bring no variable of their own *)
+Theorem C09_compose_leaf : forall k w xs s1 s2 ys,
+  fmt_ok k w -> Forall (slot_built k w) xs -> names_ok xs = true -> plain_values k w s1 ->
+  fill_leaf s1 k w xs = Some (ILeaf k w ys) ->
+  fill_leaf s2 k w ys = fill_leaf (s1 ++ s2) k w xs.
+Proof. exact fill_leaf_composes. Qed.
+Print Assumptions C09_compose_leaf.
+
+(* C09_compose_partial: for list templates the composition law and the order
+   of the remaining variables are decided by the Go-side composition monitor of
+   suite C09 and by the correspondence with the model. *)
